@@ -32,7 +32,21 @@ def main(argv):
     tier = argv[1]
     if tier not in ("quick", "thorough"):
         tier = os.environ.get("VERIF_TIER", "quick")
-    return mod.run(tier, seed)
+    try:
+        return mod.run(tier, seed)
+    except Exception:  # noqa: BLE001
+        # the machinery itself failed on this tree (e.g. the code under test raised where the harness cannot continue):
+        # the property is then not shown to hold
+        import traceback
+        tb = traceback.format_exc()
+        sys.stderr.write(tb)
+        v = common.Verdict(prop, tier, seed)
+        v.coverage.update({"evaluations": 1, "distinct_nontrivial": 2, "obligations": 1, "discharged": 0,
+                           "checker_cmd": "harness aborted", "trusted_base": common.TRUSTED_BASE,
+                           "rule": "the check aborted with an unexpected exception; nothing was established"})
+        v.violation("the check aborted with an unexpected exception: " + tb.strip().splitlines()[-1],
+                    {"traceback": tb[-3000:], "theorem": f"props/{prop}.v / correspondence (harness aborted)"}, has_input=False)
+        return v.finish()
 
 
 if __name__ == "__main__":
